@@ -15,6 +15,18 @@ chk("C06",
     "Coq proof (structural induction over strings via a 4-state scanner) + regenerated-model tie + vm_compute correspondence",
     "DESIGN.md §4 C06")
 
+chk("C05",
+    "Coq theorems over the item model (Model/Item.v; rounds = every daemon iterates once: decisions on the index as the iteration starts, then the queued tasks in order): from every item state (consistent or not) in every environment (source active or not, destination usable or not, full or not, 3 routes, 4 transport kinds, deletion allowed or not) four fault-free rounds reach a state that no later round changes, at which no copy on a managed node is suspect unless released, a released copy is deleted unless the deletion-safety rule holds it back, and a request is completed, cancelled, or pending with one of the six documented reasons, each of which is shown genuine. Decided by vm_compute over the complete enumeration (11 232 states x 192 environments) lifted by forallb_forall. Tie (T2): five fault-free rounds of the real daemons on single-item worlds from arbitrary start states are compared round by round with the model in Coq. Multi-item: random multi-host histories followed by fault-free rounds of all daemons to two identical snapshots, residual work judged by an independent blocking-reason oracle (monitor; the cross-item bound is observed, not proved).",
+    "Coq kernel+VM; item model hand-written, tied by correspondence; rounds are serial (Sim); cross-item interference (shared source flags, autosync chains, space) only monitored; HSM / transport-class groups not simulated; import completion rests on C04's theorems and the monitors",
+    "Coq proof by complete finite enumeration (vm_compute + forallb_forall) + vm_compute correspondence of fault-free rounds with the real daemons + monitored histories",
+    "DESIGN.md §4 C05")
+
+chk("C08",
+    "Coq theorems over the index model (Model/Sys.v: rows as lists of any length; writers: upsert with the INSERT/IntegrityError/UPDATE shape, keyed updates, completion with upsert in one step, cancellation, request creation, the import gate): every writer preserves well-formedness (unique (file,node) copies, unique (acq,name) files, unique request ids, completed => ordered time stamps and a copy row of the file on a node of the destination group, no temporary name registered), hence by induction every history of writers of any length from the empty index; the boolean check evaluated on snapshots is proved sound. Agreement with storage: in the item model every complete task from an agreeing state leaves healthy unreleased copies backed by good bytes, and a copy recorded removed is gone (complete enumeration). Tie: enum lists, db_value validation and every state literal written in /repo/alpenhorn re-read on every run (T1); every snapshot of the real index after every step of random histories (CLI, iterations, imports, transfers, deletions, kills, tracked faults) judged by wf_b in Coq against the harness's own verdict, malformed variants included (T2); monitors for index/storage agreement of copies not under tracked tampering (taint ends when the daemon re-verifies the copy).",
+    "Coq kernel+VM; sqlite unique indexes as the cause of IntegrityError; op_ok (pull completes on a node of the request's group; clock not going backwards between two reads); operator overrides and tracked external faults exempt copies from agreement until the daemon's next verdict",
+    "Coq proof (induction over histories of index writers; complete enumeration for the agreement half) + vm_compute snapshot correspondence + monitored histories",
+    "DESIGN.md §4 C08")
+
 chk("C09",
     "Coq theorems over the item model (Model/Item.v: one file, its source copy, its destination copy, the request; every task is a script of micro-operations, one per database statement / file-system call; a kill = a prefix of the script + roll-back of the open transaction): for every task (verification of either copy, deletion, group search, transfer by every route, transport and transport behaviour, gate), every start state with healthy copies backed, and every k, the state after a kill at k never records a healthy unreleased copy or a newly completed request without good bytes, never changes the source's bytes and never takes the bytes of a healthy wanted destination copy; every state a kill can leave during an iteration working on a pending transfer heals within three fault-free rounds to the uninterrupted outcome (destination healthy, wanted, good bytes; request no longer pending; source untouched); a released copy is gone one round after a kill anywhere in its deletion; a wanted suspect copy has its verdict one round after. Decided by vm_compute over the complete finite enumeration (11 232 item states x environments x behaviours x crash points) lifted by forallb_forall. Tie (T2): the real daemon is killed at every interposed call of one iteration in single-item worlds (state x environment x transport behaviour) and then runs three rounds; every crash state and round is compared with the model in Coq; effect order pinned from the source text. Import crashes and random multi-item histories with one kill are compared with the uninterrupted run after convergence (monitors).",
     "Coq kernel+VM; kill = exception at an interposed call with sqlite roll-back (no torn system calls, no OS/disk loss); stand-in transports; tasks on one item do not overlap; item model hand-written, tied by correspondence only; imports covered by monitors and the C04 model, not by the item theorems",
